@@ -387,8 +387,16 @@ func RegionsFromGFF(anno gff.GFF, refSeqDegapped string) ([]Region, []int, error
 		}
 	}
 
+	// iterate over the IDs in a fixed order so that features with the same start keep a stable order
+	ids := make([]string, 0, len(IDed))
+	for id := range IDed {
+		ids = append(ids, id)
+	}
+	sort.Strings(ids)
+
 	tempcds := make([]Region, 0)
-	for _, f := range IDed {
+	for _, id := range ids {
+		f := IDed[id]
 		r, err := CDSRegion2fromGFF(f, refSeqDegapped)
 		if err != nil {
 			return []Region{}, []int{}, err
